@@ -191,6 +191,24 @@ def nested_bound():
         return False
 
 
+def nested_deep_immutable():
+    """does a typed wrapper at nesting depth 3 of an ImmutableStructure refuse its mutators?  (The first version of the
+    nested-wrapper repair left deep-copied wrappers - an immutable owner deep-copies what it stores - bound to the stand-in
+    owner of their original: such a wrapper acts on a copy and does not raise.  Harmless for C04, but the machine says
+    `raises`; the generators leave that corner out while the probe says no.)"""
+    try:
+        import typedpy as T
+        I = type("NdProbe", (T.ImmutableStructure,), {"w": T.Array[T.Map[T.String, T.Array[T.Integer]]]})
+        i = I(w=[{"a": [1]}])
+        try:
+            i.w[0]["a"].append(2)
+            return False
+        except ValueError:
+            return True
+    except Exception:
+        return False
+
+
 def delitem_hook():
     """does `del x[f]` run the class's __validate__ hook (and restore the instance when it raises)?  Probed."""
     try:
